@@ -217,8 +217,14 @@ def narrow_dtype_cases(rep: Report, n_cases=6, T_long=300):
     recs = []
     for b in range(n_cases):
         world = gen.SiteWorld(rng, 'ortho', 'chol', N=32, n_sites=3, radius=1.0, inner_fraction=0.5)
-        hist = gen.random_history(rng, 30, 2, 3, p_stay=0.7, inner=True)
-        tr = world.trajectory(hist).transitions_between_sites(world.structure, 'Li', site_radius=1.0, site_inner_fraction=0.5)
+        for _ in range(200):
+            # every atom is seen at two different sites in each third of the period: wherever a frame counter wraps or saturates,
+            # the answer for the frames after it differs from the answer at the frame where it stuck
+            hist = gen.random_history(rng, 30, 2, 3, p_stay=0.7, inner=True)
+            tr = world.trajectory(hist).transitions_between_sites(world.structure, 'Li', site_radius=1.0, site_inner_fraction=0.5)
+            st = np.asarray(tr.states)
+            if all(len(set(st[lo:lo + 10, a].tolist()) - {-1}) >= 2 for a in range(st.shape[1]) for lo in (0, 10, 20)):
+                break
         reps = -(-T_long // 30)
         dt = [np.int8, np.int16, np.int32, np.int64][b % 4]
         states = np.tile(np.asarray(tr.states), (reps, 1)).astype(dt)
